@@ -119,6 +119,21 @@ func (PreciseWrites) AfterScan(ctx *h.ScanCtx) []h.Violation {
 		}
 		// a node offered for tainting that already carries the taint in the API store (stale view)
 	}
+	// re-stamping in two steps: the escalator taint removed from a node and put back on it within one
+	// scan restarts its grace period just like an overwrite would
+	removedIn := map[string]bool{}
+	for _, e := range ctx.Entries {
+		if e.Op != sim.OpK8sUpdate || e.Err != "" {
+			continue
+		}
+		if h.TaintRemoved(e) {
+			removedIn[e.Target] = true
+		}
+		if h.TaintAdded(e) && removedIn[e.Target] {
+			out = append(out, h.Violation{Prop: "C15", Sig: "C15/restamped/removed-and-re-added-in-one-scan",
+				Msg: fmt.Sprintf("scan %d: the escalator taint of %s was removed and added again within the scan: its grace period restarts", ctx.Scan, e.Target)})
+		}
+	}
 	for i, e := range ctx.Entries {
 		if e.Op == sim.OpK8sGet && e.Before != nil {
 			if _, has := h.HasTaint(e.Before, h.TaintKey); has {
@@ -180,6 +195,30 @@ func C15Scenarios(tier string) []*h.Scenario {
 			return ev
 		}
 		out = append(out, s)
+	}
+	// two groups with different taint effects under one controller, both scaling down (either order;
+	// the first one optionally in dry mode): every taint carries its own group's effect
+	for _, order := range [][2]v1.TaintEffect{{v1.TaintEffectNoExecute, ""}, {"", v1.TaintEffectNoExecute}, {v1.TaintEffectPreferNoSchedule, v1.TaintEffectNoExecute}} {
+		for _, dryFirst := range []bool{false, true} {
+			g1, g2 := StdGroup("g1"), StdGroup("g2")
+			g1.Opts.TaintEffect, g2.Opts.TaintEffect = order[0], order[1]
+			g1.Opts.MinNodes, g2.Opts.MinNodes = 0, 0
+			g1.Opts.DryMode = dryFirst
+			groups := []h.GroupSpec{g1, g2}
+			s := &h.Scenario{Name: fmt.Sprintf("c15.two-effects.%s-%s.dry%v", order[0], order[1], dryFirst), Groups: groups, Slots: 4, Quantum: Q, MaxEventsPerSlot: 1}
+			s.Init = func(hh *h.Hist) {
+				for i, a := range InitASGs(hh) {
+					n := hh.W.AddNode(a, sim.NodeOpt{Age: 20 * Q})
+					hh.W.AddPod(podOn(groups[i], n.Name, 50))
+					hh.W.AddNode(a, sim.NodeOpt{Age: 21 * Q})
+					hh.W.AddNode(a, sim.NodeOpt{Age: 22 * Q})
+				}
+			}
+			s.Events = func(hh *h.Hist, slot int) []h.Event {
+				return []h.Event{evBurst(g1, 3, 1000), evBurst(g2, 3, 1000), evClearAllPods(g1), evClearAllPods(g2), evRestart()}
+			}
+			out = append(out, s)
+		}
 	}
 	return out
 }
